@@ -42,11 +42,18 @@ func VsH_Restart() {
 		vsAssume(kmc.ChangePrivPassphrase(priv, np, &ScryptOptions{N: 16, R: 8, P: 1}) == nil)
 		oldPriv, curPriv = priv, np
 	case 4: // public passphrase change, then a key
-		np := vsNondetBytes(6, "newpub")
+		np := vsNondetBytes(6+2*vsFork(2, "newpublen"), "newpub") // same length as the old one, or longer
 		vsAssume(string(np) != string(priv) && string(np) != string(pub))
 		vsAssume(kmc.ChangePubPassphrase(pub, np, &ScryptOptions{N: 16, R: 8, P: 1}) == nil)
 		curPub = np
 		_, _, err := kmc.GenerateNewPublicKey()
+		vsAssume(err == nil)
+	case 7: // public passphrase change (to another length), then a second keystore is created
+		np := vsNondetBytes(6+2*vsFork(2, "newpublen"), "newpub")
+		vsAssume(string(np) != string(priv) && string(np) != string(pub))
+		vsAssume(kmc.ChangePubPassphrase(pub, np, &ScryptOptions{N: 16, R: 8, P: 1}) == nil)
+		curPub = np
+		_, err := kmc.NewKeystore(priv, vsNondetBytes(32, "seed2"), "second", vsParams, &ScryptOptions{N: 16, R: 8, P: 1})
 		vsAssume(err == nil)
 	case 5: // keys issued while unlocked, then lock
 		vsAssume(kmc.Unlock(priv) == nil)
@@ -68,7 +75,7 @@ func VsH_Restart() {
 		vsAssert(err != nil, "wrong-public-passphrase-is-refused")
 	}
 	vsAssert(vsBktEqual(vsStore.root, pre), "refused-or-repeated-open-does-not-alter-the-store")
-	if hist == 4 {
+	if hist == 4 || hist == 7 {
 		_, err := NewKeystoreManagerForPoC(vsDBT{}, pub, vsParams)
 		vsAssert(err != nil, "superseded-public-passphrase-is-refused")
 	}
@@ -85,6 +92,9 @@ func VsH_Restart() {
 	vsAssert(a2 != nil, "keystore-present-under-its-identifier")
 	vsAssume(a2 != nil)
 	vsAssert(vsSameKeystore(a, a2), "reopened-keystore-equals-the-running-one")
+	for name, run := range kmc.managedKeystores {
+		vsAssert(vsSameKeystore(run, k2.managedKeystores[name]), "every-reopened-keystore-equals-the-running-one")
+	}
 	vsAssert(k2.IsLocked(), "reopened-wallet-is-locked")
 	if oldPriv != nil {
 		vsAssert(k2.Unlock(oldPriv) != nil, "superseded-private-passphrase-does-not-unlock-after-restart")
